@@ -173,6 +173,25 @@ def coq_property(pid, timeout=2400):
     return res
 
 
+def also_property(coq, pid2):
+    """Build and audit a further theorem file (Properties/<pid2>.v) and merge the result into the dict that
+    coq_property returned for the main one: the check's proof side holds only if both are closed."""
+    r = coq_property(pid2)
+    coq['ok'] = bool(coq.get('ok')) and bool(r.get('ok'))
+    coq['obligations'] = coq.get('obligations', 0) + r.get('obligations', 0)
+    coq['discharged'] = coq.get('discharged', 0) + r.get('discharged', 0)
+    coq['theorems'] = list(coq.get('theorems', [])) + list(r.get('theorems', []))
+    coq['problems'] = list(coq.get('problems', [])) + ['%s: %s' % (pid2, p) for p in r.get('problems', [])]
+    coq['wall_s'] = round((coq.get('wall_s') or 0) + (r.get('wall_s') or 0), 1)
+    if r.get('failed_at') and not coq.get('failed_at'):
+        coq['failed_at'] = r['failed_at']
+    if not r.get('ok'):
+        coq['log'] = (coq.get('log', '') + '\n--- %s ---\n' % pid2 + r.get('log', ''))[-6000:]
+    if r.get('coqchk'):
+        coq['coqchk'] = (coq.get('coqchk', '') + ' | %s: %s' % (pid2, r['coqchk']))
+    return coq
+
+
 # ------------------------------------------------------------------ driver and harness
 def ensure_driver():
     rc, out = sh([V + '/bin/build_driver'], timeout=3000)
